@@ -1,6 +1,7 @@
 package main
 
 import (
+	"strings"
 	"fmt"
 	"go/token"
 	"go/types"
@@ -58,7 +59,20 @@ func (fc *FnCtx) callMods(c *ssa.CallCommon) map[string]bool {
 	if c.IsInvoke() {
 		if con := fc.e.ifaceContract(c); con != nil && con.HasMod {
 			for _, h := range con.Modifies {
+				if i := strings.Index(h, "@"); i >= 0 {
+					h = h[:i]
+				}
 				mods[h] = true
+			}
+			sig := c.Signature()
+			for _, w := range con.Writes {
+				for i := 0; i < sig.Params().Len(); i++ {
+					if sig.Params().At(i).Name() == w && i < len(c.Args) {
+						if sl, ok := c.Args[i].Type().Underlying().(*types.Slice); ok {
+							addTypeHeaps("A."+typeName(sl.Elem()), sl.Elem(), mods)
+						}
+					}
+				}
 			}
 			return mods
 		}
@@ -90,6 +104,9 @@ func (fc *FnCtx) callMods(c *ssa.CallCommon) map[string]bool {
 				}
 			}
 			for _, h := range con.Modifies {
+				if i := strings.Index(h, "@"); i >= 0 {
+					h = h[:i]
+				}
 				mods[h] = true
 			}
 			return mods
